@@ -389,7 +389,7 @@ Proof.
   apply IH; [apply run_task_winv, HW' | apply run_task_rinv; assumption].
 Qed.
 
-Lemma on_moved_rinv st mid slot addr : WInv st -> RInv st -> RInv (on_moved st (FReq mid slot) mid addr).
+Lemma on_moved_rinv st mid slot ty addr : WInv st -> RInv st -> RInv (on_moved st (FReq mid slot) mid ty addr).
 Proof.
   intros HW H. unfold on_moved. cbn [frag_slot].
   assert (Hm : RInv (mark_moved st mid slot)) by (eapply RInv_rel; [exact HW | apply stable_mark_moved | apply rel_mark_moved | exact H]).
@@ -399,8 +399,13 @@ Proof.
   - destruct (find_pool_spec _ _ _ Efp) as [Hin _].
     destruct (pool_get stm p) as [st1 [s|]] eqn:Eg; destruct (pool_get_rinv _ _ _ _ Hm (PInv_pool _ _ Hm Hin) Eg) as (R1 & _ & M1 & _ & _);
       destruct (pool_get_winv _ _ _ _ Wm Eg) as (W1 & _).
-    + apply enqueue_rinv; [exact R1|]. intros sv mid0 slot0 _ Ef Hk. exfalso. apply Hk.
-      inversion Ef; subst. rewrite (okey_servers stm st1) by exact M1. apply okey_moved.
+    + set (st2 := if N.eqb ty RspAsk then enqueue_out st1 s (FProbe true) else st1).
+      assert (R2 : RInv st2 /\ msgs st2 = msgs st1).
+      { unfold st2. destruct (N.eqb ty RspAsk); [|split; [exact R1 | reflexivity]].
+        split; [apply enqueue_rinv; [exact R1 | intros sv0 mid0 slot0 _ E; discriminate] | apply (same_cm_enqueue_out st1 s (FProbe true))]. }
+      destruct R2 as [R2 M2].
+      apply enqueue_rinv; [exact R2|]. intros sv mid0 slot0 _ Ef Hk. exfalso. apply Hk.
+      inversion Ef; subst. rewrite (okey_servers st1 st2) by exact M2. rewrite (okey_servers stm st1) by exact M1. apply okey_moved.
     + eapply RInv_rel; [exact W1 | apply stable_fail_and_flush | apply rel_fail_and_flush | exact R1].
   - eapply RInv_rel; [exact Wm | apply stable_fail_and_flush | apply rel_fail_and_flush | exact Hm].
 Qed.
@@ -584,4 +589,48 @@ Proof.
   assert (E3 : msgs st3 = msgs (bump_mid (set_msg st1 (next_mid st1) pm))).
   { unfold st3. destruct (fold_enqueue_same targets (next_mid st1) (bump_mid (set_msg st1 (next_mid st1) pm))) as (_ & E & _). exact E. }
   destruct (lookup c (clients st3)); cbn [set_client msgs]; rewrite E3; cbn [bump_mid set_msg msgs]; apply lookup_update_eq.
+Qed.
+
+(* ---------- the two models of the ticker agree ---------- *)
+(* Model/Cluster.v (C14) computes the pool set after a ticker round from the adopted servers; the
+   event loop model applies the same change to its pools (nodes that are new get their pool from the
+   production dialer and are outside the event-loop histories).  On the pools that exist, both say
+   the same thing. *)
+Definition pool_key (p : ppool) : bytes * bool := (pp_addr p, pp_slave p).
+Definition node_key (n : cnode) : bytes * bool := (cn_addr n, cn_slave n).
+
+Lemma node_role_find servers a :
+  node_role (map node_key servers) a = match find (fun n => beqb (cn_addr n) a) servers with Some n => Some (cn_slave n) | None => None end.
+Proof.
+  unfold node_role. induction servers as [|n r IH]; cbn [map find node_key fst snd]; [reflexivity|].
+  destruct (beqb (cn_addr n) a); [reflexivity | exact IH].
+Qed.
+
+Lemma beqb_sym (a b : bytes) : beqb a b = beqb b a.
+Proof.
+  destruct (beqb a b) eqn:E1; destruct (beqb b a) eqn:E2; try reflexivity.
+  - apply beqb_eq in E1. subst. rewrite beqb_refl in E2. discriminate.
+  - apply beqb_eq in E2. subst. rewrite beqb_refl in E1. discriminate.
+Qed.
+
+Lemma memb_find a servers : memb a (map cn_addr servers) = match find (fun n => beqb (cn_addr n) a) servers with Some _ => true | None => false end.
+Proof.
+  unfold memb. induction servers as [|n r IH]; cbn [map existsb find]; [reflexivity|].
+  rewrite (beqb_sym a (cn_addr n)). destruct (beqb (cn_addr n) a); [reflexivity | exact IH].
+Qed.
+
+Theorem ticker_models_agree pools servers :
+  tick_pools (map pool_key pools) servers =
+  map pool_key (concat (map (topology_pool (map node_key servers)) pools)) ++
+  map node_key (filter (fun n => negb (memb (cn_addr n) (map pp_addr pools))) servers).
+Proof.
+  unfold tick_pools. f_equal.
+  - induction pools as [|p r IH]; cbn [map filter concat]; [reflexivity|].
+    cbn [pool_key fst]. rewrite memb_find. unfold topology_pool. rewrite node_role_find.
+    destruct (find (fun n => beqb (cn_addr n) (pp_addr p)) servers) as [n|] eqn:Ef; cbn [map app].
+    + cbn [pool_key fst]. rewrite Ef. rewrite map_app, IH. f_equal.
+      destruct (Bool.eqb (cn_slave n) (pp_slave p)) eqn:E; cbn [map pool_key pp_addr pp_slave]; [|reflexivity].
+      apply Bool.eqb_prop in E. rewrite E. reflexivity.
+    + exact IH.
+  - rewrite map_map. cbn [pool_key fst]. reflexivity.
 Qed.
